@@ -70,9 +70,22 @@ func init() {
 	reg("(*github.com/safing/portbase/database/accessor.JSONBytesAccessor).Set", func(fr *frame, args []Value) Value {
 		e := fr.e
 		// the real method reads the document through its receiver
-		fr.derefArg(args[0], "JSONBytesAccessor.Set")
+		recv := fr.derefArg(args[0], "JSONBytesAccessor.Set")
 		e.stubSeq++
 		if e.branch(e.freshVar(fmt.Sprintf("jsonacc%d.ok", e.stubSeq), 0)) {
+			// the document is replaced by a new one (a new slice, as sjson
+			// builds it): the old document with one more member
+			if st, ok := (*recv).(Struct); ok && len(st) > 0 {
+				if docPtr, ok := st[0].(*Value); ok && docPtr != nil {
+					if doc, ok := (*docPtr).(Slice); ok {
+						out := append([]Value(nil), doc.a...)
+						for _, c := range []byte(`+{"set":1}`) {
+							out = append(out, e.tt.BV(8, uint64(c)))
+						}
+						*docPtr = Slice{out}
+					}
+				}
+			}
 			return Iface{}
 		}
 		return e.newErrorString(e.strConst("json accessor: set failed (stub)"))
